@@ -39,6 +39,16 @@ func (fv *FuncVC) call(x *ssa.Call) {
 		fv.callWithContract(x, cc)
 		return
 	}
+	if tr, ok := fv.tableFns[com.Value]; ok {
+		// function value obtained from a specified table: its contract is the table's
+		tb := tr.tb
+		cc := &FuncContract{Kind: "table", Pkg: tb.Pkg, Name: tb.Var + "[]", Params: append([]string{}, tb.Params...), Requires: tb.Requires, Ensures: tb.Sem, Modifies: tb.Modifies}
+		if cc.Modifies == nil {
+			cc.Modifies = []Expr{}
+		}
+		fv.callWithContractEnv(x, cc, map[string]TV{tb.KeyVar: {tr.key, tyString}})
+		return
+	}
 	if fv.isCallback(com) {
 		fv.callCallback(x)
 		return
@@ -65,7 +75,7 @@ func (fv *FuncVC) havocCall(x *ssa.Call, mods []modEntry, all bool) *State {
 	before := fv.st
 	bound := before.get("alloc")
 	hs := &State{kind: sHavoc, h: map[string]Term{}, parent: before, havocAll: all, havoc: map[string]bool{"alloc": true},
-		site: fmt.Sprintf("c%d_%s", fv.epochN, sanitize(x.Name())), guard: fv.cur, bound: bound, exclude: mods, fv: fv}
+		site: fmt.Sprintf("c%d_%s", fv.epochN, sanitize(x.Name())), guard: fv.cur, bound: bound, exclude: mods, fv: fv, blk: fv.curIdx()}
 	for _, m := range mods {
 		hs.havoc[m.heap] = true
 	}
@@ -100,6 +110,10 @@ func (fv *FuncVC) callCallback(x *ssa.Call) {
 }
 
 func (fv *FuncVC) callWithContract(x *ssa.Call, cc *FuncContract) {
+	fv.callWithContractEnv(x, cc, nil)
+}
+
+func (fv *FuncVC) callWithContractEnv(x *ssa.Call, cc *FuncContract, extra map[string]TV) {
 	e := fv.e
 	com := &x.Call
 	sig := com.Signature()
@@ -132,6 +146,9 @@ func (fv *FuncVC) callWithContract(x *ssa.Call, cc *FuncContract) {
 		env := &Env{e: e, vars: map[string]TV{}, st: st, old: old, pkg: cc.Pkg, alloc0: old.get("alloc")}
 		for i, alias := range cc.Params {
 			env.vars[alias] = args[i]
+		}
+		for k, v := range extra {
+			env.vars[k] = v
 		}
 		return env
 	}
@@ -184,12 +201,22 @@ func (fv *FuncVC) callWithContract(x *ssa.Call, cc *FuncContract) {
 		mods = nil
 	}
 	var post *State
+	var hs *State
 	if cc.Pure {
 		post = fv.st
 	} else {
-		hs := fv.havocCall(x, mods, true)
-		_ = hs
-		post = fv.st
+		// the callee's visible effect: its modifies targets and whatever its postcondition
+		// talks about (fresh results). Heaps touched while translating the post are havocked
+		// (old arrays outside modifies keep their content); all others are unchanged.
+		allocates := false
+		for _, en := range cc.Ensures {
+			if exprMentionsCall(en.E, "fresh") {
+				allocates = true
+			}
+		}
+		// a callee whose postcondition promises nothing fresh can only change its modifies targets
+		hs = fv.havocCall(x, mods, allocates)
+		post = hs
 	}
 	ts := fv.freshResults(x)
 	envPost := mkEnv(post, pre)
@@ -206,6 +233,13 @@ func (fv *FuncVC) callWithContract(x *ssa.Call, cc *FuncContract) {
 			fv.assumptions[fmt.Sprintf("callee postcondition decided by bounded stand-in %s is assumed at call sites: %s", en.Bounded, cc.Key())] = true
 		}
 		fv.assume(envPost.trBool(en.E))
+	}
+	if hs != nil {
+		hs.get("alloc")
+		hs.havocAll = false
+		for name := range hs.h {
+			hs.havoc[name] = true
+		}
 	}
 	fv.setResult(x, ts)
 }
